@@ -113,8 +113,8 @@ func evalExecBlock(vm *r.VM, execBlock *syntax.ExecBlock, params []r.Element) (r
 			return nil, err
 		}
 
-		// set inputValue to current scope
-		if err := vm.DeclareElement(idTag, params[idx]); err != nil {
+		// set inputValue to current scope (输入 names are read-only)
+		if err := vm.DeclareConstElement(idTag, params[idx]); err != nil {
 			return nil, err
 		}
 	}
@@ -765,8 +765,8 @@ func evalMemberMethodExpr(vm *r.VM, expr *syntax.MemberMethodExpr) (r.Element, e
 			return nil, err
 		}
 
-		// bind yield result
-		if err := vm.DeclareElement(vtag, vlast); err != nil {
+		// bind yield result (read-only, same as （方法），得到X)
+		if err := vm.DeclareConstElement(vtag, vlast); err != nil {
 			return nil, err
 		}
 	}
